@@ -643,6 +643,7 @@ it
             let ghost ic0 = it.index@ as int;
 //@body_end 1
             proof {
+                reveal(untouched_md);
                 assert forall|s: int| 0 <= s < old(self).rowval@.len() && #[trigger] untouched_md(old(self).colptr@, *M, ic0 + 1, s)
                     implies self.rowval@[s] == old(self).rowval@[s] && self.nzval@[s] == old(self).nzval@[s] by {
                     assert(missing_diag(*M, ic0) ==> old(self).colptr@[ic0] != s);
@@ -982,18 +983,40 @@ pub proof fn lemma_tpos_distinct(rv: Seq<usize>, j1: int, j2: int, sm: int)
         proof { lemma_kkt_final(K0, K2, *K, *P, *A, gn, map.P@, map.A@); }
 //@end
 
+//@fn file=src/solver/core/kktsolvers/direct/quasidef/kkt_assembly.rs name=_kkt_assemble_fill as=kkt_fill_tril_arm rules=R1 from=@arm to="MatrixTriangle::Tril#1" header="fn _kkt_assemble_fill<T: FloatT>(K: &mut CscMatrix<T>, P: &CscMatrix<T>, A: &CscMatrix<T>, map: &mut LDLDataMap, n: usize)"
+//@contract
+    requires kkt_tril_pre(*old(K), *P, *A, n as int), old(map).P@.len() >= P.nzval@.len(), old(map).A@.len() >= A.nzval@.len(),
+    ensures kkt_tril_post(*old(K), *final(K), *P, *A, n as int, final(map).P@, final(map).A@),
+//@pre
+        let ghost K0 = *K;
+        let ghost gn = n as int;
+        proof { lemma_tril_pre_md(K0, *P, *A, gn); }
+//@after_stmt 1
+        let ghost K1 = *K;
+        proof { lemma_tril_after_md(K0, K1, *P, *A, gn); }
+//@after_stmt 2
+        let ghost K2 = *K;
+        proof { lemma_tril_after_P(K0, K1, K2, *P, *A, gn, map.P@); }
+//@after_stmt 3
+        proof { lemma_tril_final(K0, K2, *K, *P, *A, gn, map.P@, map.A@); }
+//@end
+
 // ---- KKT assembly, upper-triangle layout: the three fills that place P, its missing diagonal entries and A' ----
 pub open spec fn pcnt(P: CscMatrix<F>, c: int) -> int { P.colptr@[c + 1] - P.colptr@[c] }
 pub open spec fn mdn(P: CscMatrix<F>, c: int) -> int { if missing_diag(P, c) { 1int } else { 0int } }
 // cursor state handed over by the counting pass (after colcount_to_colptr): column c of the P block has room for P's
 // entries plus a diagonal entry if P has none; column n + r has room for the entries of row r of A
+// spacing of the cursors handed over by the counting pass (named predicates: the bare inequality as a trigger would feed itself)
+pub open spec fn sp_triu(K: CscMatrix<F>, P: CscMatrix<F>, c: int) -> bool { K.colptr@[c] + pcnt(P, c) + mdn(P, c) <= K.colptr@[c + 1] }
+pub open spec fn sp_triu_a(K: CscMatrix<F>, A: CscMatrix<F>, n: int, r: int) -> bool { K.colptr@[n + r] + count_row(A.rowval@, r, A.rowval@.len() as int) <= K.colptr@[n + r + 1] }
+pub open spec fn sp_tril(K: CscMatrix<F>, P: CscMatrix<F>, A: CscMatrix<F>, c: int) -> bool { K.colptr@[c] + mdn(P, c) + prow(P, c) + pcnt(A, c) <= K.colptr@[c + 1] }
 pub open spec fn kkt_triu_pre(K: CscMatrix<F>, P: CscMatrix<F>, A: CscMatrix<F>, n: int) -> bool {
     &&& K.arrays_ok() && P.colptr_ok_u() && A.colptr_ok_u() && P.n == n && P.m == n && A.n == n
     &&& K.colptr@.len() > n + A.m && K.colptr@.len() <= usize::MAX && K.rowval@.len() <= usize::MAX
     &&& forall|k: int| 0 <= k < A.rowval@.len() ==> #[trigger] A.rowval@[k] < A.m
     &&& forall|k: int| 0 <= k < P.rowval@.len() ==> #[trigger] P.rowval@[k] < n
-    &&& forall|c: int| 0 <= c < n ==> #[trigger] K.colptr@[c] + pcnt(P, c) + mdn(P, c) <= K.colptr@[c + 1]
-    &&& forall|r: int| 0 <= r < A.m ==> #[trigger] K.colptr@[n + r] + count_row(A.rowval@, r, A.rowval@.len() as int) <= K.colptr@[n + r + 1]
+    &&& forall|c: int| 0 <= c < n ==> #[trigger] sp_triu(K, P, c)
+    &&& forall|r: int| 0 <= r < A.m ==> #[trigger] sp_triu_a(K, A, n, r)
     &&& K.colptr@[n + A.m] <= K.rowval@.len()
 }
 pub open spec fn kkt_triu_post(K0: CscMatrix<F>, K: CscMatrix<F>, P: CscMatrix<F>, A: CscMatrix<F>, n: int, mapP: Seq<usize>, mapA: Seq<usize>) -> bool {
@@ -1036,22 +1059,24 @@ pub open spec fn kkt_mid(K0: CscMatrix<F>, K2: CscMatrix<F>, P: CscMatrix<F>, n:
             &&& missing_diag(P, c) ==> K2.nzval@[K2.colptr@[c] - 1] == f_zero() }
     &&& forall|c: int| n <= c < K0.colptr@.len() ==> #[trigger] K2.colptr@[c] == K0.colptr@[c]
 }
+#[verifier::spinoff_prover]
 pub proof fn lemma_kkt_pre_P(K0: CscMatrix<F>, P: CscMatrix<F>, A: CscMatrix<F>, n: int)
     requires kkt_triu_pre(K0, P, A, n),
     ensures fill_block_pre(K0, P, 0, 0, MatrixShape::N),
 {
     assert forall|i: int, j: int| #[trigger] P.in_col_u(j, i) implies dest_n(K0, P, 0, i, j) < K0.rowval@.len() by {
-        assert(K0.colptr@[i] + pcnt(P, i) + mdn(P, i) <= K0.colptr@[i + 1]);
+        assert(sp_triu(K0, P, i));
         lemma_kkt_cursors_mono(K0, P, A, n, i + 1, n + A.m);
     }
     assert forall|i1: int, j1: int, i2: int, j2: int| #[trigger] P.in_col_u(j1, i1) && #[trigger] P.in_col_u(j2, i2) && j1 != j2
         implies dest_n(K0, P, 0, i1, j1) != dest_n(K0, P, 0, i2, j2) by {
-        assert(K0.colptr@[i1] + pcnt(P, i1) + mdn(P, i1) <= K0.colptr@[i1 + 1]);
-        assert(K0.colptr@[i2] + pcnt(P, i2) + mdn(P, i2) <= K0.colptr@[i2 + 1]);
+        assert(sp_triu(K0, P, i1));
+        assert(sp_triu(K0, P, i2));
         if i1 < i2 { lemma_kkt_cursors_mono(K0, P, A, n, i1 + 1, i2); }
         if i2 < i1 { lemma_kkt_cursors_mono(K0, P, A, n, i2 + 1, i1); }
     }
 }
+#[verifier::spinoff_prover]
 pub proof fn lemma_kkt_after_P(K0: CscMatrix<F>, K1: CscMatrix<F>, P: CscMatrix<F>, A: CscMatrix<F>, n: int, mapP: Seq<usize>)
     requires
         kkt_triu_pre(K0, P, A, n), fill_block_state(K0, K1, P, mapP, 0, 0, MatrixShape::N, P.rowval@.len() as int),
@@ -1070,15 +1095,16 @@ pub proof fn lemma_kkt_after_P(K0: CscMatrix<F>, K1: CscMatrix<F>, P: CscMatrix<
     }
     assert forall|i: int| 0 <= i < P.n implies P.colptr@[i] <= #[trigger] P.colptr@[i + 1] <= P.rowval@.len() by { assert(P.colptr@[i + 1] <= P.colptr@[P.n as int]); }
     assert forall|i: int| 0 <= i < P.n && missing_diag(P, i) implies #[trigger] K1.colptr@[i] < K1.rowval@.len() by {
-        assert(K0.colptr@[i] + pcnt(P, i) + mdn(P, i) <= K0.colptr@[i + 1]);
+        assert(sp_triu(K0, P, i));
         lemma_kkt_cursors_mono(K0, P, A, n, i + 1, n + A.m);
     }
     assert forall|i1: int, i2: int| 0 <= i1 < i2 < P.n && missing_diag(P, i1) && missing_diag(P, i2) implies #[trigger] K1.colptr@[i1] != #[trigger] K1.colptr@[i2] by {
-        assert(K0.colptr@[i1] + pcnt(P, i1) + mdn(P, i1) <= K0.colptr@[i1 + 1]);
+        assert(sp_triu(K0, P, i1));
         lemma_kkt_cursors_mono(K0, P, A, n, i1 + 1, i2);
         assert(P.colptr@[i2] <= P.colptr@[i2 + 1]);
     }
 }
+#[verifier::spinoff_prover]
 pub proof fn lemma_kkt_after_md(K0: CscMatrix<F>, K1: CscMatrix<F>, K2: CscMatrix<F>, P: CscMatrix<F>, A: CscMatrix<F>, n: int, mapP: Seq<usize>)
     requires
         kkt_triu_pre(K0, P, A, n), fill_block_state(K0, K1, P, mapP, 0, 0, MatrixShape::N, P.rowval@.len() as int),
@@ -1088,17 +1114,31 @@ pub proof fn lemma_kkt_after_md(K0: CscMatrix<F>, K1: CscMatrix<F>, K2: CscMatri
         fmd_post(K1, K2, P),
     ensures kkt_mid(K0, K2, P, n, mapP), fill_block_pre(K2, A, 0, n as usize, MatrixShape::T),
 {
+    lemma_kkt_after_md_a(K0, K1, K2, P, A, n, mapP);
+    lemma_kkt_after_md_b(K0, K2, P, A, n, mapP);
+}
+#[verifier::spinoff_prover]
+pub proof fn lemma_kkt_after_md_a(K0: CscMatrix<F>, K1: CscMatrix<F>, K2: CscMatrix<F>, P: CscMatrix<F>, A: CscMatrix<F>, n: int, mapP: Seq<usize>)
+    requires
+        kkt_triu_pre(K0, P, A, n), fill_block_state(K0, K1, P, mapP, 0, 0, MatrixShape::N, P.rowval@.len() as int),
+        K1.arrays_ok(), K1.rowval@.len() == K0.rowval@.len(), K1.colptr@.len() == K0.colptr@.len(),
+        forall|i: int| 0 <= i < n ==> #[trigger] K1.colptr@[i] == K0.colptr@[i] + pcnt(P, i),
+        forall|c: int| n <= c < K0.colptr@.len() ==> #[trigger] K1.colptr@[c] == K0.colptr@[c],
+        fmd_post(K1, K2, P),
+    ensures kkt_mid(K0, K2, P, n, mapP),
+{
     assert forall|i: int, j: int| #[trigger] P.in_col_u(j, i) implies ({
         let d = K0.colptr@[i] + (j - P.colptr@[i]);
         mapP[j] == d && K2.rowval@[d] == P.rowval@[j] && K2.nzval@[d] == P.nzval@[j] }) by {
         let d = K0.colptr@[i] + (j - P.colptr@[i]);
         assert(d == dest_n(K0, P, 0, i, j));
         assert(P.colptr@[i + 1] <= P.colptr@[P.n as int]);
-        assert(K0.colptr@[i] + pcnt(P, i) + mdn(P, i) <= K0.colptr@[i + 1]);
+        assert(sp_triu(K0, P, i));
         lemma_kkt_cursors_mono(K0, P, A, n, i + 1, n + A.m);
         assert(untouched_md(K1.colptr@, P, n, d)) by {
+            reveal(untouched_md);
             assert forall|c: int| 0 <= c < n && missing_diag(P, c) implies #[trigger] K1.colptr@[c] != d by {
-                assert(K0.colptr@[c] + pcnt(P, c) + mdn(P, c) <= K0.colptr@[c + 1]);
+                assert(sp_triu(K0, P, c));
                 if c < i { lemma_kkt_cursors_mono(K0, P, A, n, c + 1, i); }
                 if i < c { lemma_kkt_cursors_mono(K0, P, A, n, i + 1, c); assert(P.colptr@[c] <= P.colptr@[c + 1]); }
             }
@@ -1117,13 +1157,19 @@ pub proof fn lemma_kkt_after_md(K0: CscMatrix<F>, K1: CscMatrix<F>, K2: CscMatri
         }
     }
     assert forall|c: int| n <= c < K0.colptr@.len() implies #[trigger] K2.colptr@[c] == K0.colptr@[c] by { assert(K1.colptr@[c] == K0.colptr@[c]); }
+}
+#[verifier::spinoff_prover]
+pub proof fn lemma_kkt_after_md_b(K0: CscMatrix<F>, K2: CscMatrix<F>, P: CscMatrix<F>, A: CscMatrix<F>, n: int, mapP: Seq<usize>)
+    requires kkt_triu_pre(K0, P, A, n), kkt_mid(K0, K2, P, n, mapP),
+    ensures fill_block_pre(K2, A, 0, n as usize, MatrixShape::T),
+{
     let nn = A.rowval@.len() as int;
     assert forall|j: int| 0 <= j < nn implies #[trigger] dest_t(K2, A, n, j) < K2.rowval@.len() by {
         let r = A.rowval@[j] as int;
         assert(K2.colptr@[n + r] == K0.colptr@[n + r]);
         assert(count_row(A.rowval@, r, j + 1) == count_row(A.rowval@, r, j) + 1);
         lemma_count_row_mono(A.rowval@, r, j + 1, nn);
-        assert(K0.colptr@[n + r] + count_row(A.rowval@, r, nn) <= K0.colptr@[n + r + 1]);
+        assert(sp_triu_a(K0, A, n, r));
         lemma_kkt_cursors_mono(K0, P, A, n, n + r + 1, n + A.m);
     }
     assert forall|j1: int, j2: int| 0 <= j1 < j2 < nn implies #[trigger] dest_t(K2, A, n, j1) != #[trigger] dest_t(K2, A, n, j2) by {
@@ -1135,12 +1181,13 @@ pub proof fn lemma_kkt_after_md(K0: CscMatrix<F>, K1: CscMatrix<F>, K2: CscMatri
         if r1 == r2 { lemma_count_row_mono(A.rowval@, r1, j1 + 1, j2); }
         else {
             lemma_count_row_mono(A.rowval@, r1, j1 + 1, nn); lemma_count_row_mono(A.rowval@, r2, j2 + 1, nn);
-            assert(K0.colptr@[n + r1] + count_row(A.rowval@, r1, nn) <= K0.colptr@[n + r1 + 1]);
-            assert(K0.colptr@[n + r2] + count_row(A.rowval@, r2, nn) <= K0.colptr@[n + r2 + 1]);
+            assert(sp_triu_a(K0, A, n, r1));
+            assert(sp_triu_a(K0, A, n, r2));
             if r1 < r2 { lemma_kkt_cursors_mono(K0, P, A, n, n + r1 + 1, n + r2); } else { lemma_kkt_cursors_mono(K0, P, A, n, n + r2 + 1, n + r1); }
         }
     }
 }
+#[verifier::spinoff_prover]
 pub proof fn lemma_kkt_final(K0: CscMatrix<F>, K2: CscMatrix<F>, K3: CscMatrix<F>, P: CscMatrix<F>, A: CscMatrix<F>, n: int, mapP: Seq<usize>, mapA: Seq<usize>)
     requires
         kkt_triu_pre(K0, P, A, n), kkt_mid(K0, K2, P, n, mapP),
@@ -1151,6 +1198,7 @@ pub proof fn lemma_kkt_final(K0: CscMatrix<F>, K2: CscMatrix<F>, K3: CscMatrix<F
     let nn = A.rowval@.len() as int;
     // everything written into the columns < n lies below the first slot of the A' block, which is all fill_block(A) writes
     assert forall|s: int| 0 <= s < K0.colptr@[n] implies fb_free(K2, A, n, MatrixShape::T, nn, s) by {
+        reveal(fb_free);
         assert forall|i: int, j: int| #[trigger] A.in_col_u(j, i) && j < nn implies fb_dest(K2, A, n, MatrixShape::T, i, j) != s by {
             let r = A.rowval@[j] as int;
             assert(K2.colptr@[n + r] == K0.colptr@[n + r]);
@@ -1163,7 +1211,7 @@ pub proof fn lemma_kkt_final(K0: CscMatrix<F>, K2: CscMatrix<F>, K3: CscMatrix<F
         mapP[j] == d && K3.rowval@[d] == P.rowval@[j] && K3.nzval@[d] == P.nzval@[j] }) by {
         let d = K0.colptr@[i] + (j - P.colptr@[i]);
         assert(P.colptr@[i + 1] <= P.colptr@[P.n as int]);
-        assert(K0.colptr@[i] + pcnt(P, i) + mdn(P, i) <= K0.colptr@[i + 1]);
+        assert(sp_triu(K0, P, i));
         lemma_kkt_cursors_mono(K0, P, A, n, i + 1, n);
         lemma_kkt_cursors_mono(K0, P, A, n, n, n + A.m);
         assert(fb_free(K2, A, n, MatrixShape::T, nn, d));
@@ -1174,7 +1222,7 @@ pub proof fn lemma_kkt_final(K0: CscMatrix<F>, K2: CscMatrix<F>, K3: CscMatrix<F
         &&& missing_diag(P, c) ==> K3.nzval@[K3.colptr@[c] - 1] == f_zero() }) by {
         lemma_count_row_absent_below(A.rowval@, c - n, nn);
         assert(K3.colptr@[c] == K2.colptr@[c] + count_row(A.rowval@, c - n, nn));
-        assert(K0.colptr@[c] + pcnt(P, c) + mdn(P, c) <= K0.colptr@[c + 1]);
+        assert(sp_triu(K0, P, c));
         lemma_kkt_cursors_mono(K0, P, A, n, c + 1, n);
         lemma_kkt_cursors_mono(K0, P, A, n, n, n + A.m);
         assert(fb_free(K2, A, n, MatrixShape::T, nn, K2.colptr@[c] - 1));
@@ -1189,7 +1237,7 @@ pub proof fn lemma_kkt_final(K0: CscMatrix<F>, K2: CscMatrix<F>, K3: CscMatrix<F
         assert(count_row(A.rowval@, r, j + 1) == count_row(A.rowval@, r, j) + 1);
         lemma_count_row_mono(A.rowval@, r, j + 1, nn);
         lemma_count_row_le(A.rowval@, r, j);
-        assert(K0.colptr@[n + r] + count_row(A.rowval@, r, nn) <= K0.colptr@[n + r + 1]);
+        assert(sp_triu_a(K0, A, n, r));
     }
     assert forall|r: int| 0 <= r < A.m implies #[trigger] K3.colptr@[n + r] == K0.colptr@[n + r] + count_row(A.rowval@, r, nn) by {
         assert(K3.colptr@[n + r] == K2.colptr@[n + r] + count_row(A.rowval@, (n + r) - n, nn));
@@ -1205,8 +1253,306 @@ pub proof fn lemma_kkt_cursors_mono(K: CscMatrix<F>, P: CscMatrix<F>, A: CscMatr
     if a < b {
         lemma_kkt_cursors_mono(K, P, A, n, a, b - 1);
         let c = b - 1;
-        if c < n { assert(K.colptr@[c] + pcnt(P, c) + mdn(P, c) <= K.colptr@[c + 1]); assert(P.colptr@[c] <= P.colptr@[c + 1]); }
-        else { assert(K.colptr@[n + (c - n)] + count_row(A.rowval@, c - n, A.rowval@.len() as int) <= K.colptr@[n + (c - n) + 1]); lemma_count_row_le(A.rowval@, c - n, A.rowval@.len() as int); }
+        if c < n { assert(sp_triu(K, P, c)); assert(P.colptr@[c] <= P.colptr@[c + 1]); }
+        else { assert(sp_triu_a(K, A, n, c - n)); lemma_count_row_le(A.rowval@, c - n, A.rowval@.len() as int); }
+    }
+}
+
+
+// ---- KKT assembly, lower-triangle layout: missing diagonal entries first, then P transposed, then A below it ----
+pub open spec fn prow(P: CscMatrix<F>, c: int) -> int { count_row(P.rowval@, c, P.rowval@.len() as int) }
+pub open spec fn kkt_tril_pre(K: CscMatrix<F>, P: CscMatrix<F>, A: CscMatrix<F>, n: int) -> bool {
+    &&& K.arrays_ok() && P.colptr_ok_u() && A.colptr_ok_u() && P.n == n && P.m == n && A.n == n
+    &&& K.colptr@.len() > n && n + A.m <= usize::MAX && K.colptr@.len() <= usize::MAX && K.rowval@.len() <= usize::MAX
+    &&& forall|k: int| 0 <= k < P.rowval@.len() ==> #[trigger] P.rowval@[k] < n
+    &&& forall|k: int| 0 <= k < A.rowval@.len() ==> #[trigger] A.rowval@[k] < A.m
+    // P is upper triangular with strictly increasing rows in every column (what the constructor hands over)
+    &&& forall|c: int, k: int| #[trigger] P.in_col_u(k, c) ==> P.rowval@[k] <= c
+    &&& forall|c: int, k: int| #[trigger] P.in_col_u(k, c) && k + 1 < P.colptr@[c + 1] ==> P.rowval@[k] < P.rowval@[k + 1]
+    &&& forall|c: int| 0 <= c < n ==> #[trigger] sp_tril(K, P, A, c)
+    &&& K.colptr@[n] <= K.rowval@.len()
+}
+pub open spec fn ptpos(K0: CscMatrix<F>, P: CscMatrix<F>, j: int) -> int { K0.colptr@[P.rowval@[j] as int] + mdn(P, P.rowval@[j] as int) + count_row(P.rowval@, P.rowval@[j] as int, j) }
+pub open spec fn kkt_tril_mid(K0: CscMatrix<F>, K2: CscMatrix<F>, P: CscMatrix<F>, n: int, mapP: Seq<usize>) -> bool {
+    &&& K2.arrays_ok() && K2.rowval@.len() == K0.rowval@.len() && K2.colptr@.len() == K0.colptr@.len()
+    &&& forall|i: int, j: int| #[trigger] P.in_col_u(j, i) ==> {
+            let d = ptpos(K0, P, j);
+            mapP[j] == d && K2.rowval@[d] == i && K2.nzval@[d] == P.nzval@[j] }
+    &&& forall|c: int| 0 <= c < n ==> {
+            &&& #[trigger] K2.colptr@[c] == K0.colptr@[c] + mdn(P, c) + prow(P, c)
+            &&& K2.colptr@[c] > K0.colptr@[c] && K2.rowval@[K0.colptr@[c] as int] == c
+            &&& missing_diag(P, c) ==> K2.nzval@[K0.colptr@[c] as int] == f_zero() }
+    &&& forall|c: int| n <= c < K0.colptr@.len() ==> #[trigger] K2.colptr@[c] == K0.colptr@[c]
+}
+pub open spec fn kkt_tril_post(K0: CscMatrix<F>, K: CscMatrix<F>, P: CscMatrix<F>, A: CscMatrix<F>, n: int, mapP: Seq<usize>, mapA: Seq<usize>) -> bool {
+    &&& K.arrays_ok() && K.rowval@.len() == K0.rowval@.len() && K.colptr@.len() == K0.colptr@.len()
+    // C11: entry (r, i) of the upper-triangular P sits transposed at (i, r): column r, row i
+    &&& forall|i: int, j: int| #[trigger] P.in_col_u(j, i) ==> {
+            let d = ptpos(K0, P, j);
+            mapP[j] == d && K.rowval@[d] == i && K.nzval@[d] == P.nzval@[j] }
+    // C11: complete diagonal: the first entry of every column c < n is (c, c)
+    &&& forall|c: int| 0 <= c < n ==> {
+            &&& #[trigger] K.colptr@[c] == K0.colptr@[c] + mdn(P, c) + prow(P, c) + pcnt(A, c)
+            &&& K.colptr@[c] > K0.colptr@[c] && K.rowval@[K0.colptr@[c] as int] == c
+            &&& missing_diag(P, c) ==> K.nzval@[K0.colptr@[c] as int] == f_zero() }
+    // C11: entry j of A (row r, column i) sits at (n + r, i), after the P part of that column
+    &&& forall|i: int, j: int| #[trigger] A.in_col_u(j, i) ==> {
+            let d = K0.colptr@[i] + mdn(P, i) + prow(P, i) + (j - A.colptr@[i]);
+            mapA[j] == d && K.rowval@[d] == A.rowval@[j] + n && K.nzval@[d] == A.nzval@[j] }
+}
+pub proof fn lemma_tril_cursors_mono(K: CscMatrix<F>, P: CscMatrix<F>, A: CscMatrix<F>, n: int, a: int, b: int)
+    requires kkt_tril_pre(K, P, A, n), 0 <= a <= b <= n,
+    ensures K.colptr@[a] <= K.colptr@[b],
+    decreases b - a,
+{
+    if a < b {
+        lemma_tril_cursors_mono(K, P, A, n, a, b - 1);
+        let c = b - 1;
+        assert(sp_tril(K, P, A, c));
+        lemma_count_row_le(P.rowval@, c, P.rowval@.len() as int);
+        assert(A.colptr@[c] <= A.colptr@[c + 1]);
+    }
+}
+pub proof fn lemma_count_row_none(rv: Seq<usize>, r: int, k: int)
+    requires 0 <= k <= rv.len(), forall|j: int| 0 <= j < k ==> #[trigger] rv[j] != r,
+    ensures count_row(rv, r, k) == 0,
+    decreases k,
+{ if k > 0 { lemma_count_row_none(rv, r, k - 1); } }
+// in an upper-triangular P with strictly sorted columns the stored diagonal entry of column c is the first entry of row c
+#[verifier::spinoff_prover]
+pub proof fn lemma_diag_first_in_row(K: CscMatrix<F>, P: CscMatrix<F>, A: CscMatrix<F>, n: int, c: int)
+    requires kkt_tril_pre(K, P, A, n), 0 <= c < n, !missing_diag(P, c),
+    ensures count_row(P.rowval@, c, P.colptr@[c + 1] - 1) == 0,
+{
+    let jd = P.colptr@[c + 1] - 1;
+    assert(P.colptr@[c] <= P.colptr@[c + 1] <= P.colptr@[P.n as int]);
+    assert forall|j: int| 0 <= j < jd implies #[trigger] P.rowval@[j] != c by {
+        if j >= P.colptr@[c] {
+            assert(P.in_col_u(j, c));
+            lemma_col_strict(P, c, j, jd);
+        } else {
+            // j lies in an earlier column i < c: its row is <= i < c
+            let i = lemma_col_of(P, j, c);
+            assert(P.in_col_u(j, i));
+        }
+    }
+    lemma_count_row_none(P.rowval@, c, jd);
+}
+pub proof fn lemma_col_strict(P: CscMatrix<F>, c: int, j1: int, j2: int)
+    requires P.colptr_ok_u(), 0 <= c < P.n, P.colptr@[c] <= j1 < j2 < P.colptr@[c + 1],
+        forall|c: int, k: int| #[trigger] P.in_col_u(k, c) && k + 1 < P.colptr@[c + 1] ==> P.rowval@[k] < P.rowval@[k + 1],
+    ensures P.rowval@[j1] < P.rowval@[j2],
+    decreases j2 - j1,
+{
+    assert(P.in_col_u(j2 - 1, c));
+    if j1 < j2 - 1 { lemma_col_strict(P, c, j1, j2 - 1); }
+}
+// an entry index below the start of column c belongs to some column i < c
+pub proof fn lemma_col_of(P: CscMatrix<F>, j: int, c: int) -> (i: int)
+    requires P.colptr_ok_u(), 0 < c <= P.n, 0 <= j < P.colptr@[c],
+    ensures 0 <= i < c, P.colptr@[i] <= j < P.colptr@[i + 1],
+    decreases c,
+{
+    if j >= P.colptr@[c - 1] { c - 1 } else { assert(c - 1 > 0) by { if c - 1 == 0 { assert(P.colptr@[0] == 0); } } lemma_col_of(P, j, c - 1) }
+}
+#[verifier::spinoff_prover]
+pub proof fn lemma_tril_pre_md(K0: CscMatrix<F>, P: CscMatrix<F>, A: CscMatrix<F>, n: int)
+    requires kkt_tril_pre(K0, P, A, n),
+    ensures
+        forall|i: int| 0 <= i < P.n ==> P.colptr@[i] <= #[trigger] P.colptr@[i + 1] <= P.rowval@.len(),
+        forall|i: int| 0 <= i < P.n && missing_diag(P, i) ==> #[trigger] K0.colptr@[i] < K0.rowval@.len(),
+        forall|i1: int, i2: int| 0 <= i1 < i2 < P.n && missing_diag(P, i1) && missing_diag(P, i2) ==> #[trigger] K0.colptr@[i1] != #[trigger] K0.colptr@[i2],
+{
+    assert forall|i: int| 0 <= i < P.n implies P.colptr@[i] <= #[trigger] P.colptr@[i + 1] <= P.rowval@.len() by { assert(P.colptr@[i + 1] <= P.colptr@[P.n as int]); }
+    assert forall|i: int| 0 <= i < P.n && missing_diag(P, i) implies #[trigger] K0.colptr@[i] < K0.rowval@.len() by {
+        assert(sp_tril(K0, P, A, i));
+        lemma_count_row_le(P.rowval@, i, P.rowval@.len() as int); assert(A.colptr@[i] <= A.colptr@[i + 1]);
+        lemma_tril_cursors_mono(K0, P, A, n, i + 1, n);
+    }
+    assert forall|i1: int, i2: int| 0 <= i1 < i2 < P.n && missing_diag(P, i1) && missing_diag(P, i2) implies #[trigger] K0.colptr@[i1] != #[trigger] K0.colptr@[i2] by {
+        assert(sp_tril(K0, P, A, i1));
+        lemma_count_row_le(P.rowval@, i1, P.rowval@.len() as int); assert(A.colptr@[i1] <= A.colptr@[i1 + 1]);
+        lemma_tril_cursors_mono(K0, P, A, n, i1 + 1, i2);
+    }
+}
+#[verifier::spinoff_prover]
+pub proof fn lemma_tril_after_md(K0: CscMatrix<F>, K1: CscMatrix<F>, P: CscMatrix<F>, A: CscMatrix<F>, n: int)
+    requires kkt_tril_pre(K0, P, A, n), fmd_post(K0, K1, P),
+    ensures
+        forall|c: int| 0 <= c < n ==> #[trigger] K1.colptr@[c] == K0.colptr@[c] + mdn(P, c),
+        forall|c: int| n <= c < K0.colptr@.len() ==> #[trigger] K1.colptr@[c] == K0.colptr@[c],
+        fill_block_pre(K1, P, 0, 0, MatrixShape::T),
+{
+    let np = P.rowval@.len() as int;
+    assert forall|c: int| 0 <= c < n implies #[trigger] K1.colptr@[c] == K0.colptr@[c] + mdn(P, c) by { let dest = K0.colptr@[c] as int; }
+    assert forall|j: int| 0 <= j < np implies #[trigger] dest_t(K1, P, 0, j) < K1.rowval@.len() by {
+        let r = P.rowval@[j] as int;
+        assert(K1.colptr@[r] == K0.colptr@[r] + mdn(P, r));
+        assert(count_row(P.rowval@, r, j + 1) == count_row(P.rowval@, r, j) + 1);
+        lemma_count_row_mono(P.rowval@, r, j + 1, np);
+        assert(sp_tril(K0, P, A, r));
+        assert(A.colptr@[r] <= A.colptr@[r + 1]);
+        lemma_tril_cursors_mono(K0, P, A, n, r + 1, n);
+    }
+    assert forall|j1: int, j2: int| 0 <= j1 < j2 < np implies #[trigger] dest_t(K1, P, 0, j1) != #[trigger] dest_t(K1, P, 0, j2) by {
+        let r1 = P.rowval@[j1] as int; let r2 = P.rowval@[j2] as int;
+        assert(K1.colptr@[r1] == K0.colptr@[r1] + mdn(P, r1)); assert(K1.colptr@[r2] == K0.colptr@[r2] + mdn(P, r2));
+        assert(count_row(P.rowval@, r1, j1 + 1) == count_row(P.rowval@, r1, j1) + 1);
+        assert(count_row(P.rowval@, r2, j2 + 1) == count_row(P.rowval@, r2, j2) + 1);
+        lemma_count_row_le(P.rowval@, r1, j1); lemma_count_row_le(P.rowval@, r2, j2);
+        if r1 == r2 { lemma_count_row_mono(P.rowval@, r1, j1 + 1, j2); }
+        else {
+            lemma_count_row_mono(P.rowval@, r1, j1 + 1, np); lemma_count_row_mono(P.rowval@, r2, j2 + 1, np);
+            assert(sp_tril(K0, P, A, r1));
+            assert(sp_tril(K0, P, A, r2));
+            assert(A.colptr@[r1] <= A.colptr@[r1 + 1]); assert(A.colptr@[r2] <= A.colptr@[r2 + 1]);
+            if r1 < r2 { lemma_tril_cursors_mono(K0, P, A, n, r1 + 1, r2); } else { lemma_tril_cursors_mono(K0, P, A, n, r2 + 1, r1); }
+        }
+    }
+}
+#[verifier::spinoff_prover]
+pub proof fn lemma_tril_after_P(K0: CscMatrix<F>, K1: CscMatrix<F>, K2: CscMatrix<F>, P: CscMatrix<F>, A: CscMatrix<F>, n: int, mapP: Seq<usize>)
+    requires
+        kkt_tril_pre(K0, P, A, n), fmd_post(K0, K1, P),
+        forall|c: int| 0 <= c < n ==> #[trigger] K1.colptr@[c] == K0.colptr@[c] + mdn(P, c),
+        forall|c: int| n <= c < K0.colptr@.len() ==> #[trigger] K1.colptr@[c] == K0.colptr@[c],
+        fill_block_state(K1, K2, P, mapP, 0, 0, MatrixShape::T, P.rowval@.len() as int),
+        K2.arrays_ok(), K2.rowval@.len() == K1.rowval@.len(), K2.colptr@.len() == K1.colptr@.len(),
+    ensures kkt_tril_mid(K0, K2, P, n, mapP), fill_block_pre(K2, A, n as usize, 0, MatrixShape::N),
+{
+    let np = P.rowval@.len() as int;
+    assert forall|i: int, j: int| #[trigger] P.in_col_u(j, i) implies ({
+        let d = ptpos(K0, P, j);
+        mapP[j] == d && K2.rowval@[d] == i && K2.nzval@[d] == P.nzval@[j] }) by {
+        let r = P.rowval@[j] as int;
+        assert(P.colptr@[i + 1] <= P.colptr@[P.n as int]);
+        assert(K1.colptr@[r] == K0.colptr@[r] + mdn(P, r));
+        assert(dest_t(K1, P, 0, j) == ptpos(K0, P, j));
+    }
+    assert forall|c: int| 0 <= c < n implies ({
+        &&& #[trigger] K2.colptr@[c] == K0.colptr@[c] + mdn(P, c) + prow(P, c)
+        &&& K2.colptr@[c] > K0.colptr@[c] && K2.rowval@[K0.colptr@[c] as int] == c
+        &&& missing_diag(P, c) ==> K2.nzval@[K0.colptr@[c] as int] == f_zero() }) by {
+        assert(K2.colptr@[c] == K1.colptr@[c] + count_row(P.rowval@, c - 0, np));
+        assert(K1.colptr@[c] == K0.colptr@[c] + mdn(P, c));
+        lemma_count_row_le(P.rowval@, c, np);
+        let s0 = K0.colptr@[c] as int;
+        assert(sp_tril(K0, P, A, c));
+        assert(A.colptr@[c] <= A.colptr@[c + 1]);
+        lemma_tril_cursors_mono(K0, P, A, n, c + 1, n);
+        if missing_diag(P, c) {
+            // the structural zero written by fill_missing_diag is not a destination of any entry of P
+            assert(fb_free(K1, P, 0, MatrixShape::T, np, s0)) by {
+                reveal(fb_free);
+                assert forall|i: int, j: int| #[trigger] P.in_col_u(j, i) && j < np implies fb_dest(K1, P, 0, MatrixShape::T, i, j) != s0 by {
+                    let r = P.rowval@[j] as int;
+                    assert(K1.colptr@[r] == K0.colptr@[r] + mdn(P, r));
+                    lemma_count_row_le(P.rowval@, r, j);
+                    assert(count_row(P.rowval@, r, j + 1) == count_row(P.rowval@, r, j) + 1);
+                    lemma_count_row_mono(P.rowval@, r, j + 1, np);
+                    assert(sp_tril(K0, P, A, r));
+                    assert(A.colptr@[r] <= A.colptr@[r + 1]);
+                    if r < c { lemma_tril_cursors_mono(K0, P, A, n, r + 1, c); }
+                    if c < r { lemma_tril_cursors_mono(K0, P, A, n, c + 1, r); }
+                }
+            }
+            assert(K1.rowval@[s0] == c && K1.nzval@[s0] == f_zero());
+        } else {
+            let jd = P.colptr@[c + 1] - 1;
+            assert(P.colptr@[c] <= P.colptr@[c + 1] <= P.colptr@[P.n as int]);
+            assert(P.in_col_u(jd, c));
+            lemma_diag_first_in_row(K0, P, A, n, c);
+            assert(ptpos(K0, P, jd) == s0);
+            assert(count_row(P.rowval@, c, jd + 1) == count_row(P.rowval@, c, jd) + 1);
+            lemma_count_row_mono(P.rowval@, c, jd + 1, np);
+        }
+    }
+    assert forall|c: int| n <= c < K0.colptr@.len() implies #[trigger] K2.colptr@[c] == K0.colptr@[c] by {
+        assert(K2.colptr@[c] == K1.colptr@[c] + count_row(P.rowval@, c - 0, np));
+        lemma_count_row_absent(P.rowval@, c, np);
+    }
+    // preconditions of fill_block(A, N, initrow n, initcol 0)
+    assert forall|i: int, j: int| #[trigger] A.in_col_u(j, i) implies dest_n(K2, A, 0, i, j) < K2.rowval@.len() by {
+        assert(K2.colptr@[i] == K0.colptr@[i] + mdn(P, i) + prow(P, i));
+        assert(sp_tril(K0, P, A, i));
+        lemma_tril_cursors_mono(K0, P, A, n, i + 1, n);
+    }
+    assert forall|i1: int, j1: int, i2: int, j2: int| #[trigger] A.in_col_u(j1, i1) && #[trigger] A.in_col_u(j2, i2) && j1 != j2
+        implies dest_n(K2, A, 0, i1, j1) != dest_n(K2, A, 0, i2, j2) by {
+        assert(K2.colptr@[i1] == K0.colptr@[i1] + mdn(P, i1) + prow(P, i1));
+        assert(K2.colptr@[i2] == K0.colptr@[i2] + mdn(P, i2) + prow(P, i2));
+        assert(sp_tril(K0, P, A, i1));
+        assert(sp_tril(K0, P, A, i2));
+        lemma_count_row_le(P.rowval@, i1, np); lemma_count_row_le(P.rowval@, i2, np);
+        if i1 < i2 { lemma_tril_cursors_mono(K0, P, A, n, i1 + 1, i2); }
+        if i2 < i1 { lemma_tril_cursors_mono(K0, P, A, n, i2 + 1, i1); }
+    }
+    assert forall|k: int| 0 <= k < A.rowval@.len() implies #[trigger] A.rowval@[k] + n <= usize::MAX by { }
+}
+// a slot below the end of the P part of column c is not a destination of any entry of A
+#[verifier::spinoff_prover]
+pub proof fn lemma_tril_free(K0: CscMatrix<F>, K2: CscMatrix<F>, P: CscMatrix<F>, A: CscMatrix<F>, n: int, mapP: Seq<usize>, c: int, s: int)
+    requires kkt_tril_pre(K0, P, A, n), kkt_tril_mid(K0, K2, P, n, mapP), 0 <= c < n, K0.colptr@[c] <= s < K2.colptr@[c],
+    ensures fb_free(K2, A, 0, MatrixShape::N, A.rowval@.len() as int, s),
+{
+    let na = A.rowval@.len() as int; let np = P.rowval@.len() as int;
+    reveal(fb_free);
+    assert forall|i: int, j: int| #[trigger] A.in_col_u(j, i) && j < na implies fb_dest(K2, A, 0, MatrixShape::N, i, j) != s by {
+        assert(K2.colptr@[i] == K0.colptr@[i] + mdn(P, i) + prow(P, i));
+        assert(K2.colptr@[c] == K0.colptr@[c] + mdn(P, c) + prow(P, c));
+        assert(sp_tril(K0, P, A, i));
+        assert(sp_tril(K0, P, A, c));
+        lemma_count_row_le(P.rowval@, i, np); lemma_count_row_le(P.rowval@, c, np);
+        assert(A.colptr@[c] <= A.colptr@[c + 1]);
+        if i < c { lemma_tril_cursors_mono(K0, P, A, n, i + 1, c); }
+        if c < i { lemma_tril_cursors_mono(K0, P, A, n, c + 1, i); }
+    }
+}
+#[verifier::spinoff_prover]
+pub proof fn lemma_tril_final(K0: CscMatrix<F>, K2: CscMatrix<F>, K3: CscMatrix<F>, P: CscMatrix<F>, A: CscMatrix<F>, n: int, mapP: Seq<usize>, mapA: Seq<usize>)
+    requires
+        kkt_tril_pre(K0, P, A, n), kkt_tril_mid(K0, K2, P, n, mapP),
+        fill_block_state(K2, K3, A, mapA, n as usize, 0, MatrixShape::N, A.rowval@.len() as int),
+        K3.arrays_ok(), K3.rowval@.len() == K2.rowval@.len(), K3.colptr@.len() == K2.colptr@.len(),
+    ensures kkt_tril_post(K0, K3, P, A, n, mapP, mapA),
+{
+    let na = A.rowval@.len() as int; let np = P.rowval@.len() as int;
+    assert forall|i: int, j: int| #[trigger] P.in_col_u(j, i) implies ({
+        let d = ptpos(K0, P, j);
+        mapP[j] == d && K3.rowval@[d] == i && K3.nzval@[d] == P.nzval@[j] }) by {
+        let r = P.rowval@[j] as int; let d = ptpos(K0, P, j);
+        lemma_count_row_le(P.rowval@, r, j);
+        assert(count_row(P.rowval@, r, j + 1) == count_row(P.rowval@, r, j) + 1);
+        lemma_count_row_mono(P.rowval@, r, j + 1, np);
+        assert(K2.colptr@[r] == K0.colptr@[r] + mdn(P, r) + prow(P, r));
+        assert(sp_tril(K0, P, A, r)); assert(A.colptr@[r] <= A.colptr@[r + 1]);
+        lemma_tril_cursors_mono(K0, P, A, n, r + 1, n);
+        assert(0 <= d < K2.rowval@.len());
+        lemma_tril_free(K0, K2, P, A, n, mapP, r, d);
+        assert(K3.rowval@[d] == K2.rowval@[d] && K3.nzval@[d] == K2.nzval@[d]);
+        assert(P.colptr@[i + 1] <= P.colptr@[P.n as int]);
+    }
+    assert forall|c: int| 0 <= c < n implies ({
+        &&& #[trigger] K3.colptr@[c] == K0.colptr@[c] + mdn(P, c) + prow(P, c) + pcnt(A, c)
+        &&& K3.colptr@[c] > K0.colptr@[c] && K3.rowval@[K0.colptr@[c] as int] == c
+        &&& missing_diag(P, c) ==> K3.nzval@[K0.colptr@[c] as int] == f_zero() }) by {
+        assert(K3.colptr@[0 + c] == K2.colptr@[0 + c] + pushed_n(A, c, na));
+        assert(A.colptr@[c] <= A.colptr@[c + 1] <= A.colptr@[A.n as int]);
+        assert(K2.colptr@[c] == K0.colptr@[c] + mdn(P, c) + prow(P, c));
+        assert(sp_tril(K0, P, A, c));
+        lemma_count_row_le(P.rowval@, c, np);
+        lemma_tril_cursors_mono(K0, P, A, n, c + 1, n);
+        let s0 = K0.colptr@[c] as int;
+        assert(0 <= s0 < K2.rowval@.len());
+        lemma_tril_free(K0, K2, P, A, n, mapP, c, s0);
+        assert(K3.rowval@[s0] == K2.rowval@[s0] && K3.nzval@[s0] == K2.nzval@[s0]);
+        assert(pushed_n(A, c, na) == pcnt(A, c));
+    }
+    assert forall|i: int, j: int| #[trigger] A.in_col_u(j, i) implies ({
+        let d = K0.colptr@[i] + mdn(P, i) + prow(P, i) + (j - A.colptr@[i]);
+        mapA[j] == d && K3.rowval@[d] == A.rowval@[j] + n && K3.nzval@[d] == A.nzval@[j] }) by {
+        assert(K2.colptr@[i] == K0.colptr@[i] + mdn(P, i) + prow(P, i));
+        assert(dest_n(K2, A, 0, i, j) == K0.colptr@[i] + mdn(P, i) + prow(P, i) + (j - A.colptr@[i]));
     }
 }
 
@@ -1267,6 +1613,7 @@ pub open spec fn fill_block_state(K0: CscMatrix<F>, K: CscMatrix<F>, M: CscMatri
 pub open spec fn fb_dest(K0: CscMatrix<F>, M: CscMatrix<F>, initcol: int, shape: MatrixShape, i: int, j: int) -> int {
     if shape == MatrixShape::T { dest_t(K0, M, initcol, j) } else { dest_n(K0, M, initcol, i, j) }
 }
+#[verifier::opaque]
 pub open spec fn fb_free(K0: CscMatrix<F>, M: CscMatrix<F>, initcol: int, shape: MatrixShape, k: int, s: int) -> bool {
     forall|i: int, j: int| #[trigger] M.in_col_u(j, i) && j < k ==> fb_dest(K0, M, initcol, shape, i, j) != s
 }
@@ -1293,6 +1640,7 @@ pub proof fn lemma_fill_block_step(K0: CscMatrix<F>, K1: CscMatrix<F>, K2: CscMa
            &&& map2 == map1.update(jj, d as usize) && K2.colptr@ == K1.colptr@.update(col, (d + 1) as usize) }),
     ensures fill_block_state(K0, K2, M, map2, initrow, initcol, shape, jj + 1),
 {
+    reveal(fb_free);
     let dcur = K1.colptr@[if shape == MatrixShape::T { M.rowval@[jj] + initcol } else { ii + initcol }] as int;
     assert forall|s: int| 0 <= s < K0.rowval@.len() && fb_free(K0, M, initcol as int, shape, jj + 1, s) implies #[trigger] K2.rowval@[s] == K0.rowval@[s] by {
         assert(fb_dest(K0, M, initcol as int, shape, ii, jj) != s);
@@ -1350,6 +1698,7 @@ pub proof fn lemma_fill_block_step(K0: CscMatrix<F>, K1: CscMatrix<F>, K2: CscMa
 pub open spec fn col_is(sq: Seq<usize>, offset: int) -> bool { forall|k: int| 0 <= k < sq.len() ==> #[trigger] sq[k] == offset + k }
 // column i of M (square, upper triangular) has no stored diagonal entry: it is empty or its last row index is not i
 // slot s is not the cursor of any column below hi that lacks a diagonal entry
+#[verifier::opaque]
 pub open spec fn untouched_md(cur: Seq<usize>, M: CscMatrix<F>, hi: int, s: int) -> bool {
     forall|c: int| 0 <= c < hi && missing_diag(M, c) ==> #[trigger] cur[c] != s
 }
